@@ -34,6 +34,7 @@ type World struct {
 	errTypes       []types.Type // tracked error types (repo)
 	loadSecs       float64
 	renames        map[*Contract][]string // rename-tolerance notes per contract (names.go)
+	typeByKey      map[string]types.Type // typeKey → type, for every type that received a dynamic-type id
 	rangeKeys      map[string]map[string]nameEntry // outermost function → baseline range-key variables (names.go)
 }
 
@@ -151,6 +152,10 @@ func (w *World) typeID(t types.Type) int {
 	id := len(w.typeNames)
 	w.typeIDs[k] = id
 	w.typeNames = append(w.typeNames, k)
+	if w.typeByKey == nil {
+		w.typeByKey = map[string]types.Type{}
+	}
+	w.typeByKey[k] = t
 	return id
 }
 
